@@ -163,8 +163,9 @@ func listDir(d string) []string {
 type vcase struct {
 	Case struct {
 		Cmd string   `json:"cmd"`
-		Src string   `json:"src"`
-		Ins []string `json:"ins"`
+		Src  string   `json:"src"`
+		Ins  []string `json:"ins"`
+		Pres string   `json:"pres"`
 	} `json:"case"`
 	Verdict struct {
 		Exit     int   `json:"exit"`
@@ -239,6 +240,19 @@ func runVerdict(vc vcase) {
 	}
 	d := scratch(files)
 	args := argsOf(vc.Case.Cmd)
+	switch vc.Case.Pres {
+	case "":
+	case "json", "yaml", "table", "tree":
+		args = append(args, "-f", vc.Case.Pres)
+	case "ast", "tokens":
+		args = append(args, "--"+vc.Case.Pres)
+	case "treeview":
+		args = append(args, "--tree")
+	case "verbose":
+		args = append(args, "-v")
+	default:
+		core.Fatalf("unknown presentation %q", vc.Case.Pres)
+	}
 	stdin := ""
 	if strings.HasPrefix(vc.Case.Src, "dir-") || vc.Case.Src == "glob" {
 		// the inputs lie in a directory q: flat; the last one in a sub-directory; next to a dot-file; next to a file
